@@ -5,7 +5,9 @@
 mod ctor;
 mod exec;
 mod hashers;
+mod iters;
 mod lfu;
+mod putresult;
 mod qalloc;
 mod sut;
 mod track;
@@ -142,6 +144,8 @@ fn main() {
                        "quarantined": qalloc::QUARANTINED.load(std::sync::atomic::Ordering::Relaxed)})
             );
         }
+        "putresult" => eprintln!("{}", putresult::run(&a)),
+        "iters" => eprintln!("{}", iters::run(&a)),
         "ctor" => eprintln!("{}", ctor::run(&a)),
         "tinylfu" => eprintln!("{}", lfu::run::<lfu::Tl>(&a)),
         "sampled" => eprintln!("{}", lfu::run::<lfu::Sl>(&a)),
